@@ -494,6 +494,52 @@ def gen_pipeline_cfg(seed, big=False):
     return cfg
 
 
+OPTIMISABLE = ("ASN", "GLN", "HIS", "SER", "THR", "TYR", "ASP", "GLU", "LYS", "ARG", "CYS")
+
+
+def terminus_matrix_cfgs():
+    """Deterministic pipeline workload: chain terminus (N / C) x optimisable residue type
+    (flips, alcohols, carboxylic acids, ...) x protonation regime of the terminus (charged,
+    neutral via --neutraln/--neutralc, neutral via PROPKA at pH 1 / 13), each terminal
+    residue surrounded by waters.  Rare bookkeeping branches (HO of a neutral C-terminus,
+    H2/H3 of an N-terminus, flipped or rotated terminal side chains) are reached by these
+    conjunctions only, and a discrepancy needs a partner close enough to ask."""
+    from sim import corpus
+
+    opts = (["--ff=PARSE", "--neutralc"], ["--ff=PARSE", "--neutraln"],
+            ["--ff=AMBER", "--titration-state-method=propka", "--with-ph=1.0"],
+            ["--ff=PARSE", "--titration-state-method=propka", "--with-ph=13.0"],
+            ["--ff=CHARMM"], ["--ff=PARSE", "--neutraln", "--neutralc", "--nodebump"])
+    out = []
+    for item in ("cterm_hid.pdb", "1AJJ.pdb", "1BX8.pdb", "1K1I.pdb", "1A1P.pdb", "1US0.pdb"):
+        groups = corpus.polymer_groups(corpus.residue_groups(
+            corpus.first_model_lines(corpus.load(item))))
+        names = [g["resname"] for g in groups]
+        seen = {}
+        for i, nm in enumerate(names):
+            if nm not in OPTIMISABLE or seen.get(nm, 0) >= 2:
+                continue
+            seen[nm] = seen.get(nm, 0) + 1
+            for end in ("C", "N"):
+                if end == "C":
+                    start = max(0, i - 5)
+                    n = i - start + 1
+                    term = n - 1
+                else:
+                    start = i
+                    n = min(6, len(names) - i)
+                    term = 0
+                if n < 3:
+                    continue
+                for k, o in enumerate(opts):
+                    cfg = {"item": item, "window": [start, n], "waters": 4,
+                           "solvate": [[term, 6]], "argv": list(o)}
+                    if k % 3 == 2:
+                        cfg["damage"] = [[term, "add_oxt"]] if end == "C" else []
+                    out.append(cfg)
+    return out
+
+
 @world.job_kind("c14.pipeline")
 def job_pipeline(job, scratch):
     from sim import cellmon, runner
@@ -524,7 +570,7 @@ def _shrink_pipeline(run_one, cfg, key):
 
     cur = dict(cfg)
     # 1. drop decorations
-    for field in ("rigid", "damage", "rename", "waters"):
+    for field in ("rigid", "damage", "rename", "waters", "solvate"):
         if cur.get(field):
             cand = {k: v for k, v in cur.items() if k != field}
             if still(cand):
@@ -585,6 +631,13 @@ def main(tier, seed):
         s = seed * 1_000_003 + i
         cfg = gen_pipeline_cfg(s, big=not quick and i % 4 == 0)
         pipe_cfgs[f"p{i}"] = (s, cfg)
+    matrix = terminus_matrix_cfgs()
+    if quick:
+        # a rotating fifth of the matrix per seed (stride coprime with the number of
+        # option sets); thorough runs all of it
+        matrix = matrix[seed % 5::5]
+    for i, cfg in enumerate(matrix):
+        pipe_cfgs[f"m{i}"] = (f"m{i}", cfg)
     # interleave so that both sub-checks progress even if the deadline cuts the batch
     pj = [{"id": k, "kind": "c14.pipeline", "cfg": v[1]} for k, v in pipe_cfgs.items()]
     order = []
